@@ -9,6 +9,7 @@ C19 -- timestamps. Decided statically (necessary conditions):
 """
 import ast
 from .common import Ctx, surface, term_has_attr, api_key, describe_path, const_str, ENTITY_CLASSES
+from nixsa.px import explore
 from nixsa.model import AnalysisError
 from nixsa.values import subterms, show, is_const
 
@@ -201,28 +202,43 @@ def run(M, rep, tier, only=None):
     if not t2s or not s2t:
         rep.bad(R5, "util.time_to_str/str_to_time", "required mechanism not found")
     else:
-        def fmt_of(f, meth):
+        # on the returned terms of all abstract paths (helpers inlined, module constants resolved)
+        c5 = Ctx(M, coarse=False)
+        c5.cfg.compose = False
+
+        def returned(f):
             out = []
-            for n in ast.walk(f.node):
-                if isinstance(n, ast.Call) and isinstance(n.func, ast.Attribute) and n.func.attr == meth:
-                    for a in n.args:
-                        if isinstance(a, ast.Constant) and isinstance(a.value, str) and "%" in a.value:
-                            out.append(a.value)
+            for p in explore(c5.cfg, f, None, None, 500):
+                if p.terminal[0] == "return":
+                    out.append(p.terminal[1].t)
             return out
-        f1, f2 = fmt_of(t2s, "strftime"), fmt_of(s2t, "strptime")
-        names1 = {n.attr for n in ast.walk(t2s.node) if isinstance(n, ast.Attribute)} | \
-                 {n.id for n in ast.walk(t2s.node) if isinstance(n, ast.Name)}
+
+        def fmts(terms, meth):
+            out = set()
+            for t in terms:
+                for x in subterms(t):
+                    if x and x[0] == "mcall" and x[1] == meth:
+                        out |= {a[1] for a in x[3] if a and a[0] == "const" and isinstance(a[1], str) and "%" in a[1]}
+                    if x and x[0] == "call" and isinstance(x[1], str) and x[1].split(".")[-1] == meth:
+                        out |= {a[1] for a in x[2] if a and a[0] == "const" and isinstance(a[1], str) and "%" in a[1]}
+            return sorted(out)
+        r1, r2 = returned(t2s), returned(s2t)
+        f1, f2 = fmts(r1, "strftime"), fmts(r2, "strptime")
         ok_fmt = len(f1) == 1 and f1 == f2
         rep.check(R5, "format", ok_fmt, "time_to_str uses %r but str_to_time parses %r" % (f1, f2),
                   site=t2s.file, what="both use %r" % (f1[0] if f1 else None))
-        utc = "utcfromtimestamp" in names1 or "utc" in names1 or "UTC" in names1 or "gmtime" in names1 or "timegm" in names1
+        names1 = {x[1].split(".")[-1] for t in r1 for x in subterms(t) if x and x[0] in ("call", "mcall") and isinstance(x[1], str)} | \
+                 {x[1].split(".")[-1] for t in r1 for x in subterms(t) if x and x[0] == "ext" and isinstance(x[1], str)}
+        utc = bool(names1 & {"utcfromtimestamp", "gmtime", "timegm", "utc", "UTC"})
         local = "fromtimestamp" in names1 and not utc
         if local:
             rep.bad(R5, "epoch", "time_to_str converts with local time while str_to_time assumes UTC since 1970-01-01",
                     site=t2s.file)
         elif utc:
-            consts = [n.value for n in ast.walk(s2t.node) if isinstance(n, ast.Constant)]
-            rep.check(R5, "epoch", 1970 in consts or "timegm" in {n.attr for n in ast.walk(s2t.node) if isinstance(n, ast.Attribute)},
+            epoch = any(x and x[0] == "call" and isinstance(x[1], str) and x[1].split(".")[-1] == "datetime" and
+                        tuple(a[1] for a in x[2] if a and a[0] == "const")[:3] == (1970, 1, 1) for t in r2 for x in subterms(t))
+            timegm = any(x and x[0] == "call" and isinstance(x[1], str) and x[1].split(".")[-1] == "timegm" for t in r2 for x in subterms(t))
+            rep.check(R5, "epoch", epoch or timegm,
                       "str_to_time does not count from 1970-01-01 UTC", site=s2t.file, what="UTC both ways, epoch 1970")
         else:
             raise AnalysisError("C19.R5: cannot classify the time conversion idiom of time_to_str")
